@@ -403,7 +403,15 @@ func (e *Engine) callExternal(fn *types.Func, recv Value, args []Value, cx *ast.
 		}
 		return VTerm{T: e.fresh("str", SStr), Typ: types.Typ[types.String]}
 	case "time.Now":
-		return VTerm{T: e.fresh("now", SInt), Typ: fn.Type().(*types.Signature).Results().At(0).Type()}
+		now := VTerm{T: e.fresh("now", SInt), Typ: fn.Type().(*types.Signature).Results().At(0).Type()}
+		e.callRes["time_Now"] = append(e.callRes["time_Now"], now)
+		return now
+	case "os.Exit":
+		// the process ends here: nothing after it is reached on this path
+		st.mem["@exited"] = tTrue
+		return VTuple{}
+	case "log.Logger.Println", "log.Logger.Printf", "log.Logger.Print":
+		return VTuple{}
 	case "errors.New", "fmt.Errorf":
 		r := e.fresh("err", SRef)
 		st.assume(mkNot(mkEq(r, mkConst("nil", SRef))))
@@ -412,7 +420,7 @@ func (e *Engine) callExternal(fn *types.Func, recv Value, args []Value, cx *ast.
 	return e.defaultExternal(full, fn, recv, args, cx, st)
 }
 
-var externalPkgs = map[string]bool{"database/sql": true, "encoding/json": true, "encoding/csv": true, "net/http": true, "io": true, "os": true, "path/filepath": true, "path": true,
+var externalPkgs = map[string]bool{"flag": true, "database/sql": true, "encoding/json": true, "encoding/csv": true, "net/http": true, "io": true, "os": true, "path/filepath": true, "path": true,
 	"strings": true, "errors": true, "fmt": true, "time": true, "log/slog": true, "bufio": true, "io/fs": true, "strconv": true, "log": true, "reflect": true}
 
 func (e *Engine) extCounter(st *State, kind string, ref *Term) *Term {
